@@ -596,7 +596,57 @@ def trimmed_store(f, nid, rhs, cls):
     return False, 'name stored untrimmed (source: %s %s)' % (kind, '.'.join(path))
 
 
+def model_by_name(f, cont, alias):
+    """walk the by-name accessor on models of 0..2 distinctly named elements: it returns normally exactly
+    when an element has the argument's name, and throws std::invalid_argument otherwise"""
+    import itertools
+    import a7
+    rows = 0
+    for n_ in range(3):
+        for combo in itertools.permutations(('A', 'a', 'B'), n_):
+            model = {'this.%s.size' % cont: n_, 'arg0': 'A', '#alias': dict(alias)}
+            for k, nm in enumerate(combo):
+                model['this.%s[%d]._name' % (cont, k)] = nm
+            try:
+                _, end, und = a7.walk(f, model, follow_loops=True, max_steps=1500)
+            except a7.OutOfRange as e:
+                return 'mismatch', 'with elements named %s the accessor reads element %s unchecked' % (list(combo), e)
+            if end.startswith('undecided') or end == 'loop':
+                return 'undecided', end
+            want = 'NEXIT' if 'A' in combo else 'throw:' + INVARG
+            rows += 1
+            if end.split('@')[0] != want:
+                return 'mismatch', 'with elements named %s and the name A asked for, the accessor ends in %s; specified %s' % (list(combo), end.split('@')[0], 'the element' if 'A' in combo else INVARG)
+    return 'ok', rows
+
+
 def check_by_name(prog, res, f, cls_pos, cls_idx, vecs):
+    from result import Result as _R
+    tmp = _R('x', 'quick', '')
+    _check_by_name(prog, tmp, f, cls_pos, cls_idx, vecs)
+    if tmp.obs and all(o['verdict'] == 'ok' for o in tmp.obs):
+        res.obs.extend(tmp.obs)
+        return
+    # another spelling (direct subscript with the index function's result, the const twin through const_cast, ...):
+    # the returned reference must designate an element of a member container, and the outcome is walked on finite models
+    rets = [n for n in f.all_nodes({'ReturnStmt'}) if n['ch']]
+    roots = {tuple([k_] + p_) for k_, p_ in (root_of(f, r['ch'][0]) for r in rets)}
+    if len(roots) == 1:
+        (k_, *p_), = roots
+        if k_ == 'this' and len(p_) == 2 and p_[1] == '[]' and p_[0] in vecs:
+            alias = {p.name: c for p, c in cls_pos if c == p_[0]}
+            v, info = model_by_name(f, p_[0], alias)
+            if v == 'ok':
+                res.ok('by-name', f.sig, f.loc(), 'designates an element of %s; walked on %s finite models: returns when an element has the name, std::invalid_argument otherwise' % (p_[0], info), function=f.sig, expr='all')
+                return
+            if v == 'mismatch':
+                res.viol('by-name', f.sig, f.loc(), info, function=f.sig, expr='model')
+                return
+    res.undecided('by-name', f.sig, f.loc(), 'the accessor is not `positional(indexByName(name))` and cannot be walked on finite models (%s)' %
+                  '; '.join(o['detail'] for o in tmp.obs if o['verdict'] != 'ok')[:200], function=f.sig, expr='shape')
+
+
+def _check_by_name(prog, res, f, cls_pos, cls_idx, vecs):
     inst = f.sig
     pid = f.params[0]['id']
     rets = [n for n in f.all_nodes({'ReturnStmt'})]
